@@ -232,7 +232,7 @@ func mutate(rng *rand.Rand, orig []item, prot *protection, tls13, tls12sig bool)
 		items = append(items[:at], append(append([]item(nil), its...), items[at:]...)...)
 	}
 	switch kind := rng.IntN(100); {
-	case kind < 12:
+	case kind < 8:
 		m.Kind = "wire-flip"
 		cls := rng.IntN(5)
 		off := 0
@@ -252,7 +252,7 @@ func mutate(rng *rand.Rand, orig []item, prot *protection, tls13, tls12sig bool)
 		}
 		edits = append(edits, wireEdit{rec: k, kind: "flip", off: off, mask: mask})
 		m.Detail = fmt.Sprintf("record %d byte %d xor %02x", k, off, mask)
-	case kind < 20:
+	case kind < 13:
 		m.Kind = "wire-set-header"
 		var data []byte
 		off := 0
@@ -267,7 +267,7 @@ func mutate(rng *rand.Rand, orig []item, prot *protection, tls13, tls12sig bool)
 		}
 		edits = append(edits, wireEdit{rec: k, kind: "set", off: off, data: data})
 		m.Detail = fmt.Sprintf("record %d header bytes at %d := %x", k, off, data)
-	case kind < 26:
+	case kind < 17:
 		m.Kind = "wire-truncate-close"
 		off := rng.IntN(6)
 		if rng.IntN(2) == 0 {
@@ -275,25 +275,25 @@ func mutate(rng *rand.Rand, orig []item, prot *protection, tls13, tls12sig bool)
 		}
 		edits = append(edits, wireEdit{rec: k, kind: "truncate", off: off})
 		m.Detail = fmt.Sprintf("script ends inside record %d after %d bytes (mod length), then close", k, off)
-	case kind < 29:
+	case kind < 19:
 		m.Kind = "drop-record"
 		items = append(items[:k], items[k+1:]...)
 		m.Detail = fmt.Sprintf("record %d dropped", k)
 		if k >= len(items) {
 			first = len(items) - 1
 		}
-	case kind < 32:
+	case kind < 21:
 		m.Kind = "dup-record"
 		insertAt(k, items[k])
 		first = k + 1
 		m.Detail = fmt.Sprintf("record %d sent twice", k)
-	case kind < 35:
+	case kind < 23:
 		m.Kind = "swap-records"
 		if k+1 < n {
 			items[k], items[k+1] = items[k+1], items[k]
 		}
 		m.Detail = fmt.Sprintf("records %d and %d swapped", k, k+1)
-	case kind < 38:
+	case kind < 25:
 		m.Kind = "wire-insert-raw"
 		data := randBytes(rng, 1+rng.IntN(60))
 		if rng.IntN(2) == 0 {
@@ -301,16 +301,16 @@ func mutate(rng *rand.Rand, orig []item, prot *protection, tls13, tls12sig bool)
 		}
 		edits = append(edits, wireEdit{rec: k, kind: "insertraw", data: data})
 		m.Detail = fmt.Sprintf("%d raw bytes in front of record %d", len(data), k)
-	case kind < 42:
+	case kind < 28:
 		m.Kind = "wire-replace-rest"
 		edits = append(edits, wireEdit{rec: k, kind: "replace_rest", data: randBytes(rng, 1+rng.IntN(3000))})
 		m.Detail = fmt.Sprintf("everything from record %d on replaced by random bytes", k)
-	case kind < 45:
+	case kind < 30:
 		m.Kind = "wire-oversize"
 		l := []int{16385, 16384 + 257, 16384 + 2049, 18433, 20000, 65535}[rng.IntN(6)]
 		edits = append(edits, wireEdit{rec: k, kind: "oversize", off: l})
 		m.Detail = fmt.Sprintf("record %d: length field %d with that many bytes", k, l)
-	case kind < 56:
+	case kind < 37:
 		m.Kind = "inject-alert"
 		lvl := byte(1 + rng.IntN(2))
 		if rng.IntN(8) == 0 {
@@ -325,7 +325,7 @@ func mutate(rng *rand.Rand, orig []item, prot *protection, tls13, tls12sig bool)
 		}
 		insertAt(k, mkItem(21, frag, k))
 		m.Detail = fmt.Sprintf("alert %x in front of record %d", frag, k)
-	case kind < 66:
+	case kind < 45:
 		m.Kind = "inject-record"
 		var it item
 		var what string
@@ -351,7 +351,7 @@ func mutate(rng *rand.Rand, orig []item, prot *protection, tls13, tls12sig bool)
 		}
 		insertAt(k, it)
 		m.Detail = fmt.Sprintf("%s (epoch %d) in front of record %d", what, it.Epoch, k)
-	case kind < 69:
+	case kind < 47:
 		m.Kind = "inject-empty-flood"
 		typ := byte(23)
 		if rng.IntN(3) == 0 {
@@ -368,7 +368,7 @@ func mutate(rng *rand.Rand, orig []item, prot *protection, tls13, tls12sig bool)
 		}
 		insertAt(k, fl...)
 		m.Detail = fmt.Sprintf("%d empty/warning records of type %d in front of record %d", cnt, typ, k)
-	case kind < 74:
+	case kind < 51:
 		m.Kind = "split-record"
 		if it := items[k]; it.Epoch >= 0 && len(it.Frag) >= 2 {
 			at := 1 + rng.IntN(len(it.Frag)-1)
@@ -381,7 +381,7 @@ func mutate(rng *rand.Rand, orig []item, prot *protection, tls13, tls12sig bool)
 			insertAt(k+1, b)
 			m.Detail = fmt.Sprintf("record %d split at %d", k, at)
 		}
-	case kind < 77:
+	case kind < 53:
 		m.Kind = "coalesce-records"
 		if k+1 < n && items[k].Epoch >= 0 && items[k].Epoch == items[k+1].Epoch && items[k].Typ == items[k+1].Typ {
 			items[k].Frag = append(items[k].Frag, items[k+1].Frag...)
@@ -400,17 +400,46 @@ func mutate(rng *rand.Rand, orig []item, prot *protection, tls13, tls12sig bool)
 			m.Kind = "none"
 			return
 		}
-		k = cands[rng.IntN(len(cands))]
+		// key exchange, hello and certificate messages carry the peer-controlled lengths: prefer them over Finished etc.
+		var weighted []int
+		for _, i := range cands {
+			w := 1
+			switch items[i].Frag[0] {
+			case 12, 16:
+				w = 6
+			case 1, 2, 11, 13:
+				w = 4
+			case 4, 8, 15:
+				w = 3
+			}
+			for j := 0; j < w; j++ {
+				weighted = append(weighted, i)
+			}
+		}
+		k = weighted[rng.IntN(len(weighted))]
 		m.Item, first = k, k
 		frag := items[k].Frag
 		msgs, fields := annotate(frag, tls13, tls12sig)
-		if kind < 92 && len(fields) > 0 {
-			f := fields[rng.IntN(len(fields))]
+		if kind < 80 && len(fields) > 0 {
+			var wf []int
+			for i, f := range fields {
+				w := 1
+				switch f.Kind {
+				case "len":
+					w = 4
+				case "id":
+					w = 2
+				}
+				for j := 0; j < w; j++ {
+					wf = append(wf, i)
+				}
+			}
+			f := fields[wf[rng.IntN(len(wf))]]
 			m.Kind = "hs-field:" + f.Kind
 			switch f.Kind {
 			case "len", "msglen":
 				max := 1<<(8*f.W) - 1
-				vals := []int{0, 1, f.Val - 1, f.Val + 1, f.Val + 256, max, f.Val / 2, f.Val ^ (1 << rng.IntN(8*f.W)), max - 1, f.Val * 2}
+				vals := []int{0, 1, f.Val - 1, f.Val + 1, max, f.Val / 2, f.Val ^ (1 << rng.IntN(8*f.W)), max - 1, f.Val * 2, len(frag) - f.Off, len(frag) - f.Off - f.W + 1, f.Val + 2 + rng.IntN(300)}
 				v := vals[rng.IntN(len(vals))]
 				if v < 0 {
 					v = max
@@ -458,6 +487,22 @@ func mutate(rng *rand.Rand, orig []item, prot *protection, tls13, tls12sig bool)
 			case 2:
 				m.Kind = "hs-msg-truncate-consistent"
 				cut := rng.IntN(mi.Len + 1)
+				// mostly at or next to a field boundary of the message
+				var bounds []int
+				for _, f := range fields {
+					if f.Off >= mi.Off+4 && f.Off+f.W <= mi.Off+4+mi.Len {
+						bounds = append(bounds, f.Off-mi.Off-4, f.Off+f.W-mi.Off-4)
+					}
+				}
+				if len(bounds) > 0 && rng.IntN(4) != 0 {
+					cut = bounds[rng.IntN(len(bounds))] + rng.IntN(3) - 1
+					if cut < 0 {
+						cut = 0
+					}
+					if cut > mi.Len {
+						cut = mi.Len
+					}
+				}
 				repl = append(hdr(mi.Type, cut), body[:cut]...)
 			case 3:
 				m.Kind = "hs-msg-empty"
@@ -562,7 +607,7 @@ func degenerateBodies(typ byte, tls13, tls12sig bool, body []byte) [][]byte {
 		}
 		return [][]byte{{0, 0, 0}, {0, 0, 3, 0, 0, 0}, {0, 0, 4, 0, 0, 1, 0x30}}
 	case 12:
-		return [][]byte{{}, {3, 0, 23, 0, 0, 0}, {3, 0, 29, 0, 4, 1, 0, 0}, {3, 0, 23, 1, 4, 4, 1, 0, 0}, {0, 0, 0, 0, 0, 0, 0, 0}, {0, 1, 2, 0, 1, 2, 0, 1, 1, 0, 0}, {0, 1, 0, 0, 1, 0, 0, 1, 0, 0, 0}}
+		return [][]byte{{}, {3, 0, 23, 0, 0, 0}, {3, 0, 29, 0, 4, 1, 0, 0}, {3, 0, 23, 200, 4}, {3, 0, 29, 255}, {3, 0, 24, 97, 4, 1, 2}, {3, 0, 23, 1, 4, 4, 1, 0, 0}, {0, 0, 0, 0, 0, 0, 0, 0}, {0, 1, 2, 0, 1, 2, 0, 1, 1, 0, 0}, {0, 1, 0, 0, 1, 0, 0, 1, 0, 0, 0}}
 	case 13:
 		if tls13 {
 			return [][]byte{{0, 0, 0}, {0, 0, 4, 0, 13, 0, 0}, {1, 9, 0, 0}}
